@@ -791,6 +791,109 @@ theorem runGets_eq (f : Nat → Nat) (c : T) (h : CInv f c) (ks : List Nat) :
     have := get_inv f c k h
     simp only [runGets, List.map_cons, this.1, ih _ this.2]
 
+/-! ### getters that fail or re-enter the cache -/
+
+theorem getFail_inv (f : Nat → Nat) (c : T) (key : Nat) (h : CInv f c) :
+    (∀ v, (Cache8.getFail c key).2 = some v → v = f key) ∧ CInv f (Cache8.getFail c key).1 := by
+  unfold Cache8.getFail
+  split
+  · next j v hs =>
+    refine ⟨fun v' hv => ?_, h⟩
+    cases hv
+    exact h j key v (scan_sound _ _ _ _ _ _ hs)
+  · exact ⟨fun v hv => (by cases hv), h⟩
+
+theorem set_inv (f : Nat → Nat) (slots : List (Option (Nat × Nat))) (i j key : Nat)
+    (h : ∀ j k v : Nat, slots[j]? = some (some (k, v)) → v = f k) :
+    CInv f { slots := slots.set j (some (key, f key)), i := i } := by
+  intro j' k v hj
+  simp only at hj
+  by_cases hjj : j = j'
+  · rw [hjj] at hj
+    rw [List.getElem?_set_self'] at hj
+    cases hc : slots[j']? with
+    | none => rw [hc] at hj; simp at hj
+    | some x =>
+      rw [hc] at hj
+      simp [Function.const] at hj
+      rw [← hj.1, ← hj.2]
+  · rw [List.getElem?_set_ne hjj] at hj
+    exact h j' k v hj
+
+theorem getNest_inv (f : Nat → Nat) (c : T) (key k2 : Nat) (h : CInv f c) :
+    (Cache8.getNest c key k2 (f k2) (f key)).2.1 = f key ∧
+      (∀ v2 b, (Cache8.getNest c key k2 (f k2) (f key)).2.2.2 = some (v2, b) → v2 = f k2) ∧
+      CInv f (Cache8.getNest c key k2 (f k2) (f key)).1 := by
+  unfold Cache8.getNest
+  split
+  · next j v hs =>
+    exact ⟨h j key v (scan_sound _ _ _ _ _ _ hs), fun v2 b hv => (by cases hv), h⟩
+  · have hc1 : CInv f { c with i := (c.i + 1) % cacheSize } := h
+    have hin := get_inv f { c with i := (c.i + 1) % cacheSize } k2 hc1
+    refine ⟨rfl, ?_, ?_⟩
+    · intro v2 b hv
+      simp only [Option.some.injEq, Prod.mk.injEq] at hv
+      rw [← hv.1]; exact hin.1
+    · exact set_inv f _ _ _ key hin.2
+
+/-- operations of a history: plain `Get`, `Get` with a failing getter, `Get` with a re-entrant getter -/
+inductive Op where
+  | get (k : Nat)
+  | fail (k : Nat)
+  | nest (k k2 : Nat)
+
+/-- all (key, value) pairs a history hands out (outer and inner calls), getter `f` -/
+def runOps (f : Nat → Nat) : T → List Op → List (Nat × Nat)
+  | _, [] => []
+  | c, .get k :: ops => (k, (Cache8.get c k (f k)).2.1) :: runOps f (Cache8.get c k (f k)).1 ops
+  | c, .fail k :: ops =>
+    (match (Cache8.getFail c k).2 with | some v => [(k, v)] | none => []) ++
+      runOps f (Cache8.getFail c k).1 ops
+  | c, .nest k k2 :: ops =>
+    (k, (Cache8.getNest c k k2 (f k2) (f k)).2.1) ::
+      ((match (Cache8.getNest c k k2 (f k2) (f k)).2.2.2 with | some (v2, _) => [(k2, v2)] | none => []) ++
+        runOps f (Cache8.getNest c k k2 (f k2) (f k)).1 ops)
+
+theorem runOps_sound (f : Nat → Nat) (c : T) (h : CInv f c) (ops : List Op) :
+    ∀ p ∈ runOps f c ops, p.2 = f p.1 := by
+  induction ops generalizing c with
+  | nil => intro p hp; cases hp
+  | cons op ops ih =>
+    intro p hp
+    cases op with
+    | get k =>
+      have := get_inv f c k h
+      simp only [runOps, List.mem_cons] at hp
+      rcases hp with rfl | hp
+      · exact this.1
+      · exact ih _ this.2 p hp
+    | fail k =>
+      have := getFail_inv f c k h
+      simp only [runOps, List.mem_append] at hp
+      rcases hp with hp | hp
+      · cases hv : (Cache8.getFail c k).2 with
+        | none => rw [hv] at hp; cases hp
+        | some v =>
+          rw [hv] at hp
+          simp only [List.mem_singleton] at hp
+          subst hp
+          exact this.1 v hv
+      · exact ih _ this.2 p hp
+    | nest k k2 =>
+      have := getNest_inv f c k k2 h
+      simp only [runOps, List.mem_cons, List.mem_append] at hp
+      rcases hp with rfl | hp | hp
+      · exact this.1
+      · cases hv : (Cache8.getNest c k k2 (f k2) (f k)).2.2.2 with
+        | none => rw [hv] at hp; cases hp
+        | some pr =>
+          rw [hv] at hp
+          obtain ⟨v2, b⟩ := pr
+          simp only [List.mem_singleton] at hp
+          subst hp
+          exact this.2.1 v2 b hv
+      · exact ih _ this.2.2 p hp
+
 end Cache8
 
 end Gsu.Proofs.Containers
